@@ -261,3 +261,126 @@ ADDRACE = Harness(
     stubs=STUBS_COMMON,
 )
 HARNESSES.append(ADDRACE)
+
+
+# ------------------------------------------------------------------ retry after a failed generation
+from . import c04 as _c04  # noqa: E402
+
+
+def retry_params(tier):
+    return [p for p in _c04.race_params(tier) if p.name != "failfirst"]
+
+
+@guard
+def retry_fn(a, tier):
+    a = dict(a)
+    a["failfirst"] = 1
+    res = _c04.race_fn.__wrapped__(a, tier) if hasattr(_c04.race_fn, "__wrapped__") else _c04.race_fn(a, tier)
+    if res.ok:
+        return res
+    # C03's clause: one resource per pair, every lookup returns the same object
+    if res.sig.startswith(("race:different-objects", "race:lookup-failed", "unexpected-exception")):
+        return res
+    return OK(res.summary, nontrivial=False)
+
+
+RETRY = Harness(
+    prop="C03",
+    name="G-retry",
+    fn=retry_fn,
+    params=retry_params,
+    cube=lambda tier: 5 if tier == "quick" else 6,
+    title="several tasks waiting behind a generation that fails: the retry must still yield ONE object for the pair",
+    bound_text=lambda tier: "as C04 G-race with the first generation attempt raising (3 tasks in the quick tier)",
+    oracle="every successful lookup of the pair (racing or later) returns the same object; no lookup of an available resource fails",
+    outside="as C04 G-race",
+    stubs=STUBS_COMMON,
+)
+HARNESSES.append(RETRY)
+
+
+# ------------------------------------------------------------------ adds made during teardown
+CLOSING_OPS = ["add_resource(T0)", "add_resource(T0, teardown_callback=cb)", "add_resource(T0+T1, teardown_callback=cb) conflicting on T1",
+               "add_resource(T0, invalid name, teardown_callback=cb)", "add_resource_factory(T0)"]
+
+
+def closing_params(tier):
+    return [P("op1", 0, 4), P("op2", 0, 4), P("nested", 0, 1)]
+
+
+@guard
+def closing_fn(a, tier):
+    ops = [pick(a["op1"], 5), pick(a["op2"], 5)]
+    nested = pick(a["nested"], 2)
+    log = []
+    problems = []
+
+    def view(ctx):
+        return (dict(ctx.get_resources(T0)), dict(ctx.get_resources(T1)))
+
+    async def main():
+        async with Context() as outer:
+            ctx = Context() if nested else outer
+            if nested:
+                await ctx.__aenter__()
+            ctx.add_resource(object(), "taken", [T1])
+
+            def during_teardown():
+                for n, op in enumerate(ops):
+                    before = view(ctx)
+                    name = f"late{n}"
+                    cb = lambda n=n: log.append(("late-td", n))  # noqa: E731
+                    try:
+                        if op == 0:
+                            ctx.add_resource(object(), name, [T0])
+                        elif op == 1:
+                            ctx.add_resource(object(), name, [T0], teardown_callback=cb)
+                        elif op == 2:
+                            ctx.add_resource(object(), "taken", [T0, T1], teardown_callback=cb)
+                        elif op == 3:
+                            ctx.add_resource(object(), "not valid", [T0], teardown_callback=cb)
+                        else:
+                            ctx.add_resource_factory(lambda: object(), name, types=[T0])
+                        raised = None
+                    except Exception as e:
+                        raised = e
+                    after = view(ctx)
+                    expect_fail = op in (2, 3, 4)
+                    if expect_fail and raised is None:
+                        problems.append((f"closing:{CLOSING_OPS[op]}:accepted", ""))
+                    if not expect_fail and raised is not None:
+                        problems.append((f"closing:{CLOSING_OPS[op]}:refused:{type(raised).__name__}", f"and the context {'changed' if after != before else 'did not change'}: {raised!r}"))
+                    if raised is not None and after != before:
+                        problems.append((f"closing:{CLOSING_OPS[op]}:raised-{type(raised).__name__}-but-changed-the-context", f"{before} -> {after}"))
+                    if raised is None and op in (0, 1) and name not in after[0]:
+                        problems.append((f"closing:{CLOSING_OPS[op]}:no-effect", ""))
+
+            ctx.add_teardown_callback(during_teardown)
+            if nested:
+                await ctx.__aexit__(None, None, None)
+
+    _, exc, _k = run(main)
+    summary = {"inside_a_teardown_callback": [CLOSING_OPS[o] for o in ops], "context": "nested" if nested else "root"}
+    if problems:
+        return FAIL(problems[0][0], problems[0][1], summary)
+    if exc is not None:
+        return FAIL(f"closing:raised:{type(exc).__name__}", repr(exc), summary)
+    want = [("late-td", n) for n in reversed(range(2)) if ops[n] == 1]
+    if log != want:
+        return FAIL("closing:late-teardown-callbacks", f"ran {log}, expected {want}: a failed add must not schedule its callback, a successful one must", summary)
+    return OK(summary, True)
+
+
+CLOSING = Harness(
+    prop="C03",
+    name="T-closing",
+    fn=closing_fn,
+    params=closing_params,
+    cube=lambda tier: 0,
+    title="adds made while the context is being torn down (inside a teardown callback)",
+    bound_text=lambda tier: "every sequence of two operations from {" + "; ".join(CLOSING_OPS) + "} inside a teardown callback of a root / nested context",
+    oracle="valid adds succeed and their teardown callbacks run (LIFO) in the same teardown; a call that raises leaves get_resources() unchanged and schedules nothing",
+    outside="-",
+    stubs=STUBS_COMMON,
+)
+HARNESSES.append(CLOSING)
